@@ -152,9 +152,13 @@ func runC10(r *Run) {
 	}
 	s.OnStable = func() { check("stable point at t=" + time.Duration(s.Now()).String()) }
 	s.OnDrain = func() {
-		for _, l := range held {
-			l := l
-			RootCall(func() { l.OnIgnore() })
+		rest := held
+		if len(rest) > 0 {
+			s.Go("drain-releaser", func(tk *Task) {
+				for _, l := range rest {
+					l.OnIgnore()
+				}
+			})
 		}
 	}
 	s.Run()
